@@ -41,7 +41,14 @@ var verifDir = func() string {
 	return "/verif"
 }()
 
-const repoDir = "/repo"
+// repoDir is the tree under test; VERIF_REPO overrides it for background runs
+// that must not see edits made to /repo while they work.
+var repoDir = func() string {
+	if d := os.Getenv("VERIF_REPO"); d != "" {
+		return d
+	}
+	return "/repo"
+}()
 
 type worldSpec struct {
 	name     string
@@ -101,7 +108,7 @@ func init() {
 		assume: []string{"request paths are well-formed (leading slash): what findRoute does with other strings is C04's subject", "C15 runs with colour off and URIs/tokens over [A-Za-z0-9/_-] so that the record tokenizers stay trivial and independent of C01/C13", "sampling, not proof: <=10 routes, <=4 clients x <=5 requests x <=3 batches"},
 	}
 	worlds["fsworld"] = &worldSpec{
-		name: "fsworld", pkgs: []string{"util/osutil"}, quick: 8000, thorough: 120000, enum: true, level: "fault_enumeration",
+		name: "fsworld", pkgs: []string{"util/osutil"}, quick: 8000, thorough: 20000, enum: true, level: "fault_enumeration",
 		real: []string{"util/osutil/file.go (CopyFile, MoveFile: control flow, defers, error handling)", "io.Copy (32 KiB loop)"},
 		stub: []string{"the file system behind package os (simgo/shim/sos: inodes, links, symlinks, path resolution, two devices, open file descriptions, O_TRUNC at open, rename/unlink semantics) with per-call fault plans", "no concurrency in this property: the scheduler is idle"},
 		rule: "cases = (a) every scenario of {CopyFile, MoveFile} x 7 source sizes (0..1 MiB) x {regular, missing, via symlink} x 14 destination layouts (missing, shorter, longer, same path, ./ and dir/../ spellings, symlink to source, hard link of source, directory, parent missing, parent is a file, other mount missing/existing, dangling symlink), fault-free; (b) for each scenario every single-fault placement: each call of its recorded trace x each errno applicable to that primitive (writes additionally x {0, half, all-but-one} bytes written before the error) - (a) and (b) are enumerated completely; (c) seeded plans of up to three faults over random scenarios. distinct = distinct hash of (scenario, call trace with faults, result); every case is non-trivial (it runs the operation)",
